@@ -690,6 +690,9 @@ example : createClusters exNb 3 (fuelBound exNb (List.range 8)) (List.range 8) =
 
 example : specReachable exNb 3 9 [[1, 0, 2, 3], [5, 4, 6]] = true := by decide
 
+/-- the hypotheses of `fuel_sufficient` hold for this instance -/
+example : (∀ p ∈ List.range 8, p ∈ List.range 8) ∧ (∀ p ∈ List.range 8, ∀ q ∈ exNb p, q ∈ List.range 8) := by decide
+
 /-- a point first marked as noise later joins a cluster as a border point (`points = [4, 0]`) -/
 def exNb2 (p : Nat) : List Nat := ([[1, 2], [0, 3], [0], [], [3]] : List (List Nat)).getD p []
 example : createClusters exNb2 2 (fuelBound exNb2 (List.range 5)) [4, 0] = some [[0, 1, 2, 3]] := by decide
